@@ -84,6 +84,8 @@ theorem rec_localModes (j : Nat) (r : Peer) (c : Cfg) : KeepsRec j r (localModes
 macro_rules | `(tactic| rec_leaf) => `(tactic| exact rec_localModes _ _ _)
 theorem rec_publish (j : Nat) (r : Peer) (c : Cfg) : KeepsRec j r (publish c) := by unfold publish; rec_auto
 macro_rules | `(tactic| rec_leaf) => `(tactic| exact rec_publish _ _ _)
+theorem rec_askNat (j : Nat) (r : Peer) (q : Query) : KeepsRec j r (askNat q) := by unfold askNat; rec_auto
+macro_rules | `(tactic| rec_leaf) => `(tactic| exact rec_askNat _ _ _)
 theorem rec_ask (j : Nat) (r : Peer) (q : Query) : KeepsRec j r (ask q) := by unfold ask; rec_auto
 macro_rules | `(tactic| rec_leaf) => `(tactic| exact rec_ask _ _ _)
 theorem rec_masterFailJobs (j : Nat) (r : Peer) : KeepsRec j r masterFailJobs := by unfold masterFailJobs; rec_auto
